@@ -4,11 +4,9 @@ from __future__ import annotations
 import ast
 from typing import Any
 
-from sa.cfg import CFG, calls_in
-from sa.kern import make_evaluator, py_calls
+from sa.cfg import CFG
 from sa.report import Ctx
 from sa.srcmodel import FuncInfo, func_body, inline_locals
-from sa.symterm import Env, Evaluator, Poly, Unsupported, show
 
 MOD = "moptipyapps.dynamic_control.ode"
 
@@ -69,10 +67,11 @@ def run(ctx: Ctx) -> None:
     from sa.checks import c10_runode
     c10_runode.check(ctx, ro)
     _failure_row(ctx, ro)
-    _dest(ctx)
+    from sa.checks import c10_jkernel
+    c10_jkernel.dest(ctx)
     ctx.rule("D10.6", "the cells of dest are the documented terms of J; "
              "J = sum / simulated time")
-    _j_terms(ctx)
+    c10_jkernel.j_terms(ctx)
 
 
 
@@ -340,537 +339,3 @@ def _failure_row(ctx: Ctx, ro: FuncInfo) -> None:
            "a successful result has `steps` rows of n + controller_dim + 1 "
            "cells, the last column being linspace(0, max_time, steps)",
            construct="time column and shape")
-
-
-# ------------------------------------------------------------------ D10.5
-def _dest(ctx: Ctx) -> None:
-    repo = ctx.repo
-    comp = repo.func(MOD, "__j_from_ode_compute")
-    jf = repo.func(MOD, "j_from_ode")
-    R, C = Poly.var("R"), Poly.var("C")
-    S, U = Poly.var("state_dim"), Poly.var("use_state_dims")
-    one = Poly.const(1)
-    ev = make_evaluator(repo, comp, extra_call=py_calls)
-    env = Env()
-    env.vars["ode"] = ("array", "ode")
-    # straight-line prefix
-    outer = None
-    for s in func_body(comp):
-        if isinstance(s, ast.For):
-            outer = s
-            break
-        if isinstance(s, (ast.Assign, ast.AnnAssign)):
-            src = ast.unparse(s.value).replace(" ", "")
-            tg = s.targets[0] if isinstance(s, ast.Assign) else s.target
-            if src == "ode.shape[1]-2" and isinstance(tg, ast.Name):
-                env.vars[tg.id] = C - Poly.const(2)
-            else:
-                try:
-                    env = ev.stmt(env, s)
-                except Unsupported:
-                    pass
-    ctx.need(outer is not None, "__j_from_ode_compute: loop over the rows")
-    it = ast.unparse(outer.iter).replace(" ", "")
-    trips_outer = R - one if it == "range(1,len(ode))" else None
-    total: Poly | None = Poly()
-    flag_block_trips = None
-    problems = []
-
-    def while_trips(w: ast.While, init: Poly) -> Poly | None:
-        """Trip count of `while v >= B` / `while v > 0` with one `v -= 1`
-        per round."""
-        t = w.test
-        if not (isinstance(t, ast.Compare) and isinstance(
-                t.left, ast.Name) and len(t.ops) == 1):
-            return None
-        v = t.left.id
-        decs = [s for s in ast.walk(w) if isinstance(
-            s, ast.AugAssign) and isinstance(s.target, ast.Name)
-            and s.target.id == v]
-        if len(decs) != 1 or not isinstance(decs[0].op, ast.Sub) or \
-                repo.const(comp.module, decs[0].value) != 1 or not any(
-                decs[0] is b for b in w.body):
-            return None
-        try:
-            bound = ev.num(env, t.comparators[0])
-        except Unsupported:
-            return None
-        if isinstance(t.ops[0], ast.GtE):
-            return init - bound + one
-        if isinstance(t.ops[0], ast.Gt):
-            return init - bound
-        return None
-
-    def stores_per_round(w: ast.While) -> int:
-        n = 0
-        for s in w.body:
-            if isinstance(s, ast.Assign) and ast.unparse(
-                    s.targets[0]).replace(" ", "") == "dest[index]":
-                n += 1
-        incs = sum(1 for s in w.body if isinstance(s, ast.AugAssign)
-                   and ast.unparse(s.target) == "index"
-                   and isinstance(s.op, ast.Add)
-                   and repo.const(comp.module, s.value) == 1)
-        return n if n == incs else -1
-    per_iter = Poly()
-    flag_iter = Poly()
-    cur_init: dict[str, Poly] = {}
-    for s in outer.body:
-        if isinstance(s, (ast.Assign, ast.AnnAssign)) and isinstance(
-                s.targets[0] if isinstance(s, ast.Assign) else s.target,
-                ast.Name) and s.value is not None:
-            tg = (s.targets[0] if isinstance(s, ast.Assign)
-                  else s.target).id
-            try:
-                cur_init[tg] = ev.num(env, s.value)
-            except Unsupported:
-                pass
-        elif isinstance(s, ast.While):
-            v = s.test.left.id if isinstance(s.test, ast.Compare) and \
-                isinstance(s.test.left, ast.Name) else None
-            tr = while_trips(s, cur_init.get(v, Poly.var("?"))) \
-                if v else None
-            k = stores_per_round(s)
-            if tr is None or k < 0:
-                problems.append(f"loop at line {s.lineno} not understood")
-            else:
-                per_iter = per_iter + tr.scale(k)
-        elif isinstance(s, ast.If) and isinstance(s.test, ast.Name):
-            flag = s.test.id
-            # the flag is False initially, set True at the end of every
-            # round and never cleared: the block runs in all rounds but one
-            sets = [x for x in ast.walk(comp.node) if isinstance(
-                x, (ast.Assign, ast.AnnAssign)) and isinstance(
-                x.targets[0] if isinstance(x, ast.Assign) else x.target,
-                ast.Name) and (x.targets[0] if isinstance(x, ast.Assign)
-                               else x.target).id == flag]
-            vals = [repo.const(comp.module, x.value) for x in sets]
-            last_stmt = outer.body[-2:]  # flag set near the end
-            ok_flag = sorted(map(str, vals)) == ["False", "True"] and any(
-                isinstance(x, ast.Assign) and ast.unparse(
-                    x.targets[0]) == flag for x in last_stmt) and \
-                outer.body.index(s) < max(
-                    i for i, x in enumerate(outer.body)
-                    if isinstance(x, ast.Assign)
-                    and ast.unparse(x.targets[0]) == flag)
-            if not ok_flag:
-                problems.append("flag protocol of the optional block not "
-                                "recognised")
-            inits = {}
-            for b in s.body:
-                if isinstance(b, ast.Assign) and isinstance(
-                        b.targets[0], ast.Name):
-                    try:
-                        inits[b.targets[0].id] = ev.num(env, b.value)
-                    except Unsupported:
-                        pass
-                elif isinstance(b, ast.While):
-                    v = b.test.left.id
-                    tr = while_trips(b, inits.get(v, Poly.var("?")))
-                    k = stores_per_round(b)
-                    if tr is None or k < 0:
-                        problems.append(
-                            f"loop at line {b.lineno} not understood")
-                    else:
-                        flag_iter = flag_iter + tr.scale(k)
-            flag_block_trips = True
-    if trips_outer is None:
-        problems.append(f"outer loop iterates {it}")
-        total = None
-    else:
-        total = trips_outer * per_iter + (
-            trips_outer - one) * flag_iter
-    # any store to dest outside the counted loops?
-    n_dest = sum(1 for s in ast.walk(comp.node) if isinstance(
-        s, ast.Assign) and ast.unparse(s.targets[0]).startswith("dest["))
-    # allocation in j_from_ode
-    ev2 = make_evaluator(repo, jf, extra_call=py_calls)
-    env2 = Env()
-    alloc = None
-    for s in ast.walk(jf.node):
-        if isinstance(s, ast.Call) and isinstance(
-                s.func, ast.Attribute) and s.func.attr == "empty" and s.args:
-            e2 = Env()
-            e2.vars["state_dim"] = S
-            e2.vars["use_state_dims"] = U
-
-            def shape_hook(ev_: Evaluator, env_: Env, n: ast.Call) -> Any:
-                return NotImplemented
-            src = ast.unparse(s.args[0]).replace(
-                "ode.shape[0]", "R_").replace("ode.shape[1]", "C_")
-            try:
-                node = ast.parse(src, mode="eval").body
-                e2.vars["R_"] = R
-                e2.vars["C_"] = C
-                alloc = ev2.num(e2, node)
-            except (Unsupported, SyntaxError):
-                alloc = None
-    del env2
-    ok = not problems and total is not None and alloc is not None and \
-        total == alloc and n_dest == 2 and flag_block_trips
-    ctx.ob("D10.5", jf, jf.node, bool(ok),
-           f"__j_from_ode_compute performs {show(total) if total is not None else '?'} "
-           f"stores into dest; j_from_ode allocates "
-           f"{show(alloc) if alloc is not None else '?'} cells"
-           + (" (identical polynomials)" if ok else " - NOT identical"
-              + ("; " + "; ".join(problems) if problems else "")),
-           construct="dest sizing")
-    src = ast.unparse(jf.node).replace(" ", "")
-    ok_r = "returnfsum(dest)/ode[-1,-1]" in src
-    guard = "iflen(ode)<=1:" in src and "ifuse_state_dims<=0:" in src
-    ctx.ob("D10.5", jf, jf.node, ok_r and guard,
-           "J = fsum(dest) / (final time); degenerate results are handled "
-           "before the kernel is called", construct="J = fsum/T",
-           nontrivial=False)
-
-
-# ------------------------------------------------------------------ D10.6
-def _j_terms(ctx: Ctx) -> None:
-    """The cells of `dest` are the documented terms of J."""
-    from sa.casesplit import Splitter
-    from sa.symterm import ite
-    repo = ctx.repo
-    comp = repo.func(MOD, "__j_from_ode_compute")
-    ode_n, sdim_n, udim_n, gam_n, dest_n = comp.params
-    body = func_body(comp)
-    outer = next((s for s in body if isinstance(s, ast.For)), None)
-    ctx.need(outer is not None, "__j_from_ode_compute: loop over the rows")
-    problems: list[str] = []
-    iv = outer.target.id if isinstance(outer.target, ast.Name) else "i"
-    it_src = ast.unparse(inline_locals(comp.node, outer.iter)).replace(
-        " ", "")
-    # form (a): for i in range(1, len(ode)): next = ode[i]
-    # form (b): for next in ode[1:]
-    form_a = it_src in (f"range(1,len({ode_n}))",
-                        f"range(1,{ode_n}.shape[0])")
-    form_b = it_src == f"{ode_n}[1:]" and isinstance(outer.target, ast.Name)
-    ok_it = form_a or form_b
-    if not ok_it:
-        problems.append("rows are not scanned as i = 1 .. len(ode)-1")
-    # last_row / next_row: last_row = ode[0] before, next_row = ode[i]
-    # first in the body, last_row = next_row last in the body
-    def asg(stmts: list[ast.stmt], nm: str) -> list[ast.stmt]:
-        return [s for s in stmts if isinstance(s, (ast.Assign, ast.AnnAssign))
-                and isinstance(s.targets[0] if isinstance(s, ast.Assign)
-                               else s.target, ast.Name) and (
-                    s.targets[0] if isinstance(s, ast.Assign)
-                    else s.target).id == nm and s.value is not None]
-    nxt = [s for s in outer.body if isinstance(s, (ast.Assign, ast.AnnAssign))
-           and s.value is not None and ast.unparse(s.value).replace(
-               " ", "") == f"{ode_n}[{iv}]"] if form_a else []
-    if form_b:
-        next_n = outer.target.id
-        iv = "i$"
-    else:
-        next_n = (nxt[0].targets[0] if isinstance(nxt[0], ast.Assign)
-                  else nxt[0].target).id if len(nxt) == 1 and outer.body[
-            0] is nxt[0] else None
-    last_n = None
-    carry = None
-    if next_n is not None:
-        for k_, st_ in enumerate(outer.body):
-            if isinstance(st_, ast.Assign) and isinstance(
-                    st_.value, ast.Name) and st_.value.id == next_n and \
-                    len(st_.targets) == 1 and isinstance(
-                    st_.targets[0], ast.Name):
-                cand_ = st_.targets[0].id
-                later = {n.id for x in outer.body[k_ + 1:]
-                         for n in ast.walk(x) if isinstance(n, ast.Name)}
-                if cand_ not in later and next_n not in later:
-                    last_n, carry = cand_, st_
-    nxt_stmt = nxt[0] if nxt else None
-    pre = body[:body.index(outer)]
-    init_ok = last_n is not None and any(
-        ast.unparse(s.value).replace(" ", "") == f"{ode_n}[0]"
-        for s in asg(pre, last_n)) and len(asg(outer.body, last_n)) == 1 \
-        and len(asg(outer.body, next_n)) == (0 if form_b else 1)
-    if not init_ok:
-        problems.append("the previous row is not carried as `last = ode[0]; "
-                        "for i: next = ode[i]; ...; last = next`")
-    if problems:
-        ctx.ob("D10.6", comp, outer, False, "; ".join(problems),
-               construct="row pairing")
-        return
-    ctx.ob("D10.6", comp, outer, True,
-           f"row i is paired with row i-1 (`{last_n}` = ode[i-1], "
-           f"`{next_n}` = ode[i]) for i = 1 .. len(ode)-1",
-           construct="row pairing")
-    # ---- symbolic pieces
-    ev = make_evaluator(repo, comp, extra_call=py_calls)
-    env = Env()
-    C = Poly.var("C")
-    env.vars[ode_n] = ("array", "ode")
-    env.vars[last_n] = ("array", "last")
-    env.vars[next_n] = ("array", "next")
-    env.vars.update({sdim_n: Poly.var("S"), udim_n: Poly.var("U"),
-                     gam_n: Poly.var("gamma"), iv: Poly.var("i")})
-    for s in pre:
-        if isinstance(s, (ast.Assign, ast.AnnAssign)) and s.value is not \
-                None and isinstance(s.targets[0] if isinstance(
-                    s, ast.Assign) else s.target, ast.Name):
-            tg = (s.targets[0] if isinstance(s, ast.Assign)
-                  else s.target).id
-            src = ast.unparse(s.value).replace(" ", "")
-            if src == f"{ode_n}.shape[1]-2":
-                env.vars[tg] = C - Poly.const(2)
-            elif tg != last_n:
-                try:
-                    env = ev.stmt(env, s)
-                except Unsupported:
-                    pass
-    tN = Poly.atom(("cell", "next", (Poly.const(-1),)))
-    tL = Poly.atom(("cell", "last", (Poly.const(-1),)))
-    W = tN - tL
-    big = Poly.const(10) .pow(100) if hasattr(Poly, "pow") else None
-    loops: list[dict[str, Any]] = []
-    flag_n = None
-    cur_env = env.copy()
-    def scan(stmts: list[ast.stmt], guarded: str | None, e: Env) -> Env:
-        nonlocal flag_n
-        for k, s in enumerate(stmts):
-            if s is nxt_stmt or s is carry:
-                continue
-            if isinstance(s, ast.While):
-                loops.append(_while_info(
-                    ctx, comp, ev, e, s,
-                    [b for b in stmts[:k] if b is not nxt_stmt],
-                    guarded, last_n, dest_n))
-                # havoc the counter afterwards
-                continue
-            if isinstance(s, ast.If) and isinstance(s.test, ast.Name) \
-                    and not s.orelse:
-                flag_n = s.test.id
-                scan(s.body, s.test.id, e.copy())
-                continue
-            if isinstance(s, (ast.Assign, ast.AnnAssign, ast.AugAssign)):
-                try:
-                    e = ev.stmt(e, s)
-                except Unsupported:
-                    pass
-        return e
-    scan(outer.body, None, cur_env)
-    sp = Splitter(integer=False)
-    v = Poly.var("v")
-    results = []
-    for info in loops:
-        if info.get("error"):
-            results.append((False, info["error"]))
-            continue
-        want_w = W * Poly.var("gamma") if info["guard"] is None else W
-        # 1e100 is a float literal: compare through its exact value
-        # float literals are folded through their shortest decimal form
-        hi = Poly.const(10 ** 100)
-        ref = ite(("and", ("lt", -hi, v), ("lt", v, hi)), v * v * want_w, hi)
-        same = True
-        try:
-            for facts, (g, r), _t in sp.cases((info["value"], ref)):
-                if not sp.equal(g, r, facts):
-                    same = False
-        except Unsupported:
-            same = False
-        rng_ok = False
-        if info["guard"] is None:
-            rng_ok = info["hi"] == C - Poly.const(2) and \
-                info["lo"] == Poly.var("S")
-            what = "control columns S .. C-2, weight (t_i - t_{i-1}) * gamma"
-        else:
-            rng_ok = info["hi"] == Poly.var("U") - Poly.const(1) and \
-                info["lo"] == Poly.const(0)
-            what = "state columns 0 .. U-1, weight (t_i - t_{i-1})"
-        ok = same and rng_ok and info["index_ok"]
-        results.append((ok, what if ok else
-                        f"{what}: value matches: {same} "
-                        f"({show(info['value'])[:120]}), columns "
-                        f"{show(info['lo'])}..{show(info['hi'])}, one cell "
-                        f"per term: {info['index_ok']}"))
-    n_ctrl = sum(1 for i_ in loops if i_.get("guard") is None)
-    n_state = sum(1 for i_ in loops if i_.get("guard") is not None)
-    ok = bool(results) and all(r[0] for r in results) and n_ctrl == 1 \
-        and n_state == 1
-    ctx.ob("D10.6", comp, outer, ok,
-           "every cell of dest is v^2 * weight (1e100 when |v| >= 1e100) "
-           "for v = entry of the PREVIOUS row: " + "; ".join(
-               r[1] for r in results) if ok else
-           "the terms of J deviate from the documented sum: " + "; ".join(
-               r[1] for r in results if not r[0])
-           + f" (control loops: {n_ctrl}, state loops: {n_state})",
-           construct="terms of J")
-    # the state terms are skipped for the first pair only
-    flag_ok = False
-    if flag_n is not None:
-        inits = asg(pre, flag_n)
-        sets = asg(outer.body, flag_n)
-        flag_ok = len(inits) == 1 and repo.const(
-            comp.module, inits[0].value) is False and len(sets) == 1 and \
-            repo.const(comp.module, sets[0].value) is True and \
-            outer.body.index(sets[0]) > max(
-                (outer.body.index(s) for s in outer.body
-                 if isinstance(s, ast.If) and isinstance(s.test, ast.Name)
-                 and s.test.id == flag_n), default=-1)
-    ctx.ob("D10.6", comp, outer, flag_ok,
-           "the state terms are left out exactly for the first pair of rows "
-           "(the common starting state)" if flag_ok else
-           "the rule 'starting state is not counted, all later states are' "
-           "is not implemented by the flag protocol",
-           construct="starting state skipped")
-    del big
-    # ---- the cell index starts at 0 and is only ever advanced by the loops
-    idx_names = {ast.unparse(s.targets[0].slice) for s in ast.walk(comp.node)
-                 if isinstance(s, ast.Assign) and isinstance(
-                     s.targets[0], ast.Subscript) and ast.unparse(
-                     s.targets[0].value) == dest_n}
-    ok_idx = len(idx_names) == 1
-    if ok_idx:
-        ix = next(iter(idx_names))
-        defs = asg(pre, ix)
-        other = [s for s in ast.walk(outer) if isinstance(
-            s, (ast.Assign, ast.AnnAssign)) and isinstance(
-            s.targets[0] if isinstance(s, ast.Assign) else s.target,
-            ast.Name) and (s.targets[0] if isinstance(s, ast.Assign)
-                           else s.target).id == ix]
-        ok_idx = len(defs) == 1 and repo.const(
-            comp.module, defs[0].value) == 0 and not other
-    ctx.ob("D10.6", comp, comp.node, ok_idx,
-           "the terms are written to dest[0], dest[1], ... without gaps"
-           if ok_idx else "the cell index does not start at 0 / is reset: "
-           "cells stay unfilled or are written beyond the buffer",
-           construct="cell index starts at zero")
-    # ---- j_from_ode: guard, defaults, call binding, division by the time
-    jf0 = repo.func(MOD, "j_from_ode")
-    g_ok = False
-    for s in func_body(jf0):
-        if isinstance(s, ast.If) and s.body and isinstance(
-                s.body[0], ast.Return) and repo.const(
-                jf0.module, s.body[0].value) == 1e200:
-            t = s.test
-            if isinstance(t, ast.Compare) and len(t.ops) == 1 and \
-                    ast.unparse(t.left).replace(" ", "") in (
-                    f"len({jf0.params[0]})", f"{jf0.params[0]}.shape[0]"):
-                k = repo.const(jf0.module, t.comparators[0])
-                g_ok = (isinstance(t.ops[0], ast.LtE) and k == 1) or (
-                    isinstance(t.ops[0], ast.Lt) and k == 2)
-    ctx.ob("D10.6", jf0, jf0.node, g_ok,
-           "a simulation with a single (failure) row scores 1e200, every "
-           "longer one is evaluated" if g_ok else
-           "the failure value 1e200 is not returned exactly for results "
-           "with at most one row", construct="failure row scores 1e200")
-    jf = repo.func(MOD, "j_from_ode")
-    calls = [n for n in ast.walk(jf.node) if isinstance(n, ast.Call)
-             and isinstance(n.func, ast.Name) and repo.resolve(
-                 jf.module, n.func.id) is comp]
-    p = jf.params
-    dest_var = None
-    for s in func_body(jf):
-        if isinstance(s, (ast.Assign, ast.AnnAssign)) and isinstance(
-                s.value, ast.Call) and ast.unparse(s.value.func) in (
-                "np.empty", "np.zeros"):
-            tg = s.targets[0] if isinstance(s, ast.Assign) else s.target
-            dest_var = tg.id if isinstance(tg, ast.Name) else None
-    okb = len(calls) == 1 and not calls[0].keywords and [
-        ast.unparse(a) for a in calls[0].args] == [
-        p[0], p[1], p[2], p[3], dest_var]
-    ctx.ob("D10.6", jf, calls[0] if calls else jf.node, okb,
-           "j_from_ode passes (ode, state_dim, use_state_dims, gamma, dest) "
-           "to the kernel in this order" if okb else
-           "the kernel is called with "
-           + (", ".join(ast.unparse(a) for a in calls[0].args)
-              if calls else "nothing") + " - expected (ode, state_dim, "
-           "use_state_dims, gamma, dest)", construct="kernel arguments")
-    rets = sorted((r for r in ast.walk(jf.node)
-                   if isinstance(r, ast.Return)), key=lambda r: r.lineno)
-    last = rets[-1] if rets else None
-    okr = last is not None and isinstance(
-        last.value, ast.BinOp) and isinstance(
-        last.value.op, ast.Div) and ast.unparse(last.value.left) in (
-        f"fsum({dest_var})", f"math.fsum({dest_var})",
-        f"{dest_var}.sum()", f"np.sum({dest_var})") and ast.unparse(
-        last.value.right).replace(" ", "") == f"{p[0]}[-1,-1]"
-    ctx.ob("D10.6", jf, last or jf.node, bool(okr),
-           "J = sum(dest) / ode[-1, -1] (the simulated time)" if okr else
-           "J is not the sum of the terms divided by the simulated time",
-           construct="J = sum / time")
-    cfg = CFG(jf.node)
-    call_node = next((n for n in cfg.nodes if n.kind == "stmt" and calls
-                      and any(c is calls[0] for c in calls_in(n.ast))), None)
-    ret_node = next((n for n in cfg.nodes if n.ast is last), None)
-    okd = call_node is not None and ret_node is not None and \
-        cfg.dominated_by(ret_node, lambda n: n is call_node)
-    ctx.ob("D10.6", jf, last or jf.node, okd,
-           "the terms are computed on every path that returns the sum"
-           if okd else "a path returns the sum of an unfilled buffer",
-           construct="kernel called before the sum")
-
-
-def _while_info(ctx: Ctx, comp: FuncInfo, ev: Evaluator, env: Env,
-                w: ast.While, before: list[ast.stmt], guard: str | None,
-                last_n: str, dest_n: str) -> dict[str, Any]:
-    """One term loop: visited columns, stored value, index discipline."""
-    repo = ctx.repo
-    t = w.test
-    if not (isinstance(t, ast.Compare) and isinstance(t.left, ast.Name)
-            and len(t.ops) == 1 and isinstance(t.ops[0], (ast.GtE, ast.Gt))):
-        return {"error": f"loop test `{ast.unparse(t)}` not recognised"}
-    c = t.left.id
-    init = None
-    e = env.copy()
-    for s in before:
-        if isinstance(s, (ast.Assign, ast.AnnAssign, ast.AugAssign)):
-            try:
-                e = ev.stmt(e, s)
-            except Unsupported:
-                pass
-    init = e.vars.get(c)
-    if not isinstance(init, Poly):
-        return {"error": f"start value of `{c}` not known"}
-    try:
-        bound = ev.num(e, t.comparators[0])
-    except Unsupported:
-        return {"error": "loop bound not normalised"}
-    decs = [k for k, s in enumerate(w.body) if isinstance(s, ast.AugAssign)
-            and isinstance(s.target, ast.Name) and s.target.id == c]
-    if len(decs) != 1 or not isinstance(w.body[decs[0]].op, ast.Sub) or \
-            repo.const(comp.module, w.body[decs[0]].value) != 1:
-        return {"error": f"`{c}` is not decremented by one per round"}
-    loads = [k for k, s in enumerate(w.body) if isinstance(
-        s, (ast.Assign, ast.AnnAssign)) and s.value is not None and
-        ast.unparse(s.value).replace(" ", "") == f"{last_n}[{c}]"]
-    if len(loads) != 1:
-        return {"error": f"no single load `{last_n}[{c}]` per round"}
-    vname = (w.body[loads[0]].targets[0] if isinstance(
-        w.body[loads[0]], ast.Assign) else w.body[loads[0]].target).id
-    one = Poly.const(1)
-    strict = isinstance(t.ops[0], ast.Gt)
-    # values of c at the test: init, init-1, ..., down to the bound
-    low_test = bound + one if strict else bound
-    if loads[0] < decs[0]:
-        hi, lo = init, low_test          # load, then decrement
-    else:
-        hi, lo = init - one, low_test - one
-    stores = [s for s in w.body if isinstance(s, ast.Assign) and isinstance(
-        s.targets[0], ast.Subscript) and ast.unparse(
-        s.targets[0].value) == dest_n]
-    incs = [s for s in w.body if isinstance(s, ast.AugAssign) and isinstance(
-        s.target, ast.Name) and isinstance(s.op, ast.Add) and repo.const(
-        comp.module, s.value) == 1 and s.target.id != c]
-    index_ok = len(stores) == 1 and len(incs) == 1 and ast.unparse(
-        stores[0].targets[0].slice) == incs[0].target.id and \
-        w.body.index(stores[0]) < w.body.index(incs[0]) and not any(
-        isinstance(x, (ast.If, ast.While, ast.For, ast.Break, ast.Continue))
-        for x in w.body)
-    if len(stores) != 1:
-        return {"error": "not exactly one store into dest per round"}
-    e2 = env.copy()
-    e2.vars[vname] = Poly.var("v")
-    for s in before:
-        if isinstance(s, (ast.Assign, ast.AnnAssign, ast.AugAssign)):
-            try:
-                e2 = ev.stmt(e2, s)
-            except Unsupported:
-                pass
-    e2.vars[vname] = Poly.var("v")
-    try:
-        val = ev.num(e2, stores[0].value)
-    except Unsupported as u:
-        return {"error": f"stored value not normalised: {u}"}
-    return {"hi": hi, "lo": lo, "value": val, "index_ok": index_ok,
-            "guard": guard}
